@@ -203,6 +203,24 @@ def evaluate(case):
     if len(records) != len(ilines):
         ev.dev("instruction-count", expected=len(ilines), observed=len(records))
         return ev
+    # the same listing with an address range configured that contains every address: only direct branches may be presented
+    # differently (as valid_addr, C18); the operands of every other instruction reach the patterns unchanged
+    r2 = jasm_io.stream_of(text, config={"valid_addr_range": {"min": "0", "max": "ffffffffffffffff"}})
+    if r2[0] == "ok":
+        rec2 = r2[1].split("|")[:-1]
+        if len(rec2) != len(records):
+            ev.dev("instruction-count-with-addr-range", expected=len(records), observed=len(rec2))
+            return ev
+        for (addr, t, ln), a_, b_ in zip(ilines, records, rec2):
+            if a_ != b_:
+                mn = a_.split("::", 1)[1].split(",")[0] if "::" in a_ else ""
+                branchy = mn.startswith(("j", "call", "loop", "xbegin")) or is_prefix(mn)
+                if not branchy:
+                    ev.dev("non-branch-operands-rewritten-by-addr-range", line=t, plain=a_, with_range=b_)
+                    return ev
+    elif r2[0] == "exc":
+        # branch operands that are not addresses (e.g. `jmp *%rax` forms are fine; exotic ones may be refused): not judged here
+        ev.tags.append("addr-range-stream-raised")
     counts = {}
     keys = []
     ev.subcases = 0
